@@ -440,15 +440,17 @@ func run(c Case) *pbt.Violation {
 	}
 	conn.CloseWrite()
 	// the session must notice EOF and return
-	if !conn.WaitPeerDone(15 * time.Second) {
+	if !conn.WaitPeerDone(lalclient.DeliverTimeout) {
 		if v := s.PanicViolation(); v != nil {
 			return v
 		}
-		dump := pbt.AllGoroutines()
-		if fn := pbt.InnermostLalFrame(dump); fn != "" {
-			return pbt.V("session-never-returns", "the server-side session did not return within 15 s after the peer's EOF; goroutines:\n%s", head(dump, 3000))
+		// stuck (parked in the same place) or merely slow?
+		if stuck, stack := pbt.StuckGoroutine("rtmp.(*Server).handleTcpConnect", 2*time.Second); stuck {
+			return pbt.V("session-never-returns", "the server-side session is still parked %v after the peer's EOF:\n%s", lalclient.DeliverTimeout, head(stack, 3000))
 		}
-		lalclient.Harness("session did not end and no lal frame in goroutine dump")
+		if !conn.WaitPeerDone(4 * lalclient.DeliverTimeout) {
+			lalclient.Harness("session did not end within %v and is not parked (machine too slow?)", 5*lalclient.DeliverTimeout)
+		}
 	}
 	if v := s.PanicViolation(); v != nil {
 		return v
@@ -481,7 +483,7 @@ func probe(s *inproc.Server) *pbt.Violation {
 	}
 	marker := []byte{0xAF, 1, 0xde, 0xad, 0xbe, 0xef, 1, 2, 3, 4}
 	_ = p.Send(gen.TypeAudio, 1, marker, 0)
-	if sub.WaitFor(func(r lalclient.Rec) bool { return bytes.Equal(r.Payload, marker) }, 10*time.Second) < 0 {
+	if sub.WaitFor(func(r lalclient.Rec) bool { return bytes.Equal(r.Payload, marker) }, lalclient.DeliverTimeout) < 0 {
 		if v := s.PanicViolation(); v != nil {
 			return v
 		}
